@@ -221,9 +221,10 @@ def _run_live(c, lab):
 def run_sim(c):
     spec = world.default_market(0, 4, bsp_market=False)
     spec["steps"] = None
-    sc = {"markets": [spec], "strategies": [{"name": "S", "client": 0, "max_order_exposure": None, "max_selection_exposure": None,
+    # two clients: the strategy trades through the second one, the first (the framework's default) stays idle
+    sc = {"markets": [spec], "strategies": [{"name": "S", "client": 1, "max_order_exposure": None, "max_selection_exposure": None,
                                              "max_trade_count": 10**6, "max_live_trade_count": 10**6}],
-          "clients": [{"min_bet_validation": False, "tx_limit": None}], "config": {}}
+          "clients": [{"min_bet_validation": False, "tx_limit": None}, {"min_bet_validation": False, "tx_limit": None}], "config": {}}
     s = simlab.Stepper(sc)
     try:
         return _run_sim(c, s)
@@ -241,7 +242,8 @@ def _run_sim(c, s):
     s.step(0, {"k": "book", "dt": 1000, "rc": [{"r": i, "atb": [[40, 50.0]], "atl": [[44, 50.0]]} for i in range(4)]})
     m = s.market(0)
     strat = s.lab.strategies[0]
-    client = s.lab.clients[0]
+    client = s.lab.clients[1]
+    idle = s.lab.clients[0]
     prices = s.lab.prices[m.market_id]
     ops = [{"op": "place", "r": i, "side": "BACK", "type": "LIMIT", "tick": 60 + i, "size": 10.0, "pers": c["pers"][i]} for i in range(n)]
     first = []
@@ -339,6 +341,14 @@ def _run_sim(c, s):
     if got != exp:
         raise Violation("transaction-count", (kind, "over" if got > exp else "under", "sim"),
                         "transaction count rose by %d, expected %d (fates %s, exec %s)" % (got, exp, c["fates"], c["exec_status"]), c)
+    if idle.transaction_count_total or idle.trading_controls[0].failed_transaction_count:
+        raise Violation("transaction-count", (kind, "charged-to-another-client", "sim"),
+                        "the idle default client was charged %s transactions" % idle.transaction_count_total, c)
+    for o in m.blotter:
+        if o.client is not client:
+            raise Violation("order-of-the-request-moved-to-another-client", (kind, "sim"),
+                            "order %s (%s) belongs to client %s, the requests were made through %s" % (
+                                o.bet_id, o.status.name, getattr(o.client, "username", None), client.username), c)
     # replacement orders belong to the right original
     if kind == "replace":
         for o in m.blotter:
